@@ -392,3 +392,16 @@ CHECKS['C17']['text'] += (
     "every oracle; run_many_rowsums2 (row sums of NaiveBlocking / NodeClassMatrix = populations, even inside the defect regions); NaiveBlocking: event_step_naive_blocking2_partial / run_many_naive_blocking2_partial in the scope without pre-emptive "
     "resume/restart/resample Schedules and slots, given that end-of-service / reneging candidates are not blocked (assumed per event: named _partial), and naive_blocking_refuted_F02a / _F02b, class_matrix_refuted_F02a: closed witnesses that inside the F-02a / F-02b regions "
     "the trackers go NEGATIVE ((-1,3) against a true (0,2)). K3 on stage 2: the model's call list (dispatch 45) equals the calls the real engine makes to its tracker, event by event, on every out-of-stage-1 configuration. NodeClassMatrix is also run with a custom class_ordering.")
+CHECKS['C03']['text'] += (
+    " Journey2t.v (1 035 lines, partial and named so): pre-emptive capacitated slots - the invariant SlotInt for the interrupted lists of slotted nodes (a listed customer is in a queue of that node, keeps its server mark, has no service start or end date), "
+    "its preservation by slotted_service / interrupt_service / begin_interrupted_individuals_service (function level), event_step_jrn2t_partial / run_slots_jrn2t_partial (the journey invariant Jrn2t over SLOT EVENTS, any number of them), Jrn2t_means, Jrn2t_int_means; "
+    "the all-events run theorem with pre-emptive capacitated slots is not proved (it needs a fork of Journey2s's recursive core).")
+CHECKS['C17']['text'] += (
+    " TrackerInc2b.v (2 580 lines) completes it: run_many_naive_blocking2 - NaiveBlocking folded over the calls of ANY run gives the true (unblocked, blocked) counts, no per-event hypothesis, in scope_nb = Journey2r.scope2r (all routers, reneging, jockeying, blocking, non-pre-emptive "
+    "Schedules, slots, class change; priority pre-emption incl. reroute where no node has a capacity) with the invariant Inv2 = the journey invariant Jrn2 (tested with the real history by dispatch 40); run_many_class_matrix2 - NodeClassMatrix per-class counts "
+    "(entry (j, c) = customers of node j whose previous_class is c) for configurations without class-change times, _partial with them (per-event hypothesis CandQ1); TInvS (an unblocked customer has previous_class = customer_class) preserved, and evaluated on every real snapshot in scope; "
+    "class_matrix_refuted_F02b: inside the F-02b region the tracker holds (2, 0) against a true (0, 2).")
+CHECKS['C02']['text'] += (
+    " Clock2s.v (2 440 lines) widens Clock2p's scope to infinite-server nodes, NON-pre-emptive Schedules (servers come and go, overtime, ids never reused) and non-interrupting slots: event_step_clk2s_partial / run_many_clk2s_partial / run_many_monotone2s_partial / Clk2s_means "
+    "(scope_s: no capacities, no reneging, no class change while waiting, no reroute; priority pre-emption none / resume / restart / resample anywhere); fx_F12d_inside: the F-12d run is inside the scope and keeps the clock invariant (its defect is a customer never served); "
+    "interrupt_resume_clock_partial (function level) for pre-emptive Schedule resume, whose event-level proof is designed in the file header but not done. clk2s_b is evaluated on every real snapshot in scope_s (bit clk2s).")
